@@ -286,8 +286,154 @@ def task_lossless(arg):
         out.outcome((vid, needs_conv, announced))
     return out.dump()
 
+def _declared(func):
+    """Internal type gettsim derives for a column that overrides `func` (mirrors interface._convert_data_to_correct_types)."""
+    from typing import get_args
+
+    ann = getattr(func, "__annotations__", {})
+    if "return" not in ann:
+        return None
+    t = ann["return"]
+    if getattr(func, "__info__", None) and func.__info__.get("skip_vectorization"):
+        t = get_args(t)[0]
+    return t if t in (float, int, bool, np.datetime64) else None
+
+
+def override_faults(col, t):
+    """Malformed versions of a computed column that is fed back as data and typed by its rule's return annotation."""
+    n = len(col)
+    x = col.to_numpy()
+    last = n - 1
+    yield "strings", pd.Series(["x"] * n)
+    if t is float:
+        yield "as-bool", pd.Series(x > 0)
+    if t is int:
+        for nm, bump in (("fractional", 0.5), ("tiny-fraction", 0.0002), ("nan", np.nan), ("inf", np.inf)):
+            for i in (0, last):
+                y = x.astype(float)
+                y[i] = y[i] + bump if nm in ("fractional", "tiny-fraction") else bump
+                yield f"{nm}@{i}", pd.Series(y)
+    if t is bool:
+        for nm, v in (("half", 0.5), ("tiny-fraction", 1e-6), ("nan", np.nan)):
+            y = x.astype(float)
+            y[last] = (y[last] + v) if nm == "tiny-fraction" else v
+            yield nm, pd.Series(y)
+        y = x.astype(int)
+        y[0] = 2
+        yield "two", pd.Series(y)
+    if t is np.datetime64:
+        years = x.astype("datetime64[Y]").astype(int) + 1970
+        yield "int-years", pd.Series(years.astype(np.int64))
+        yield "float-years", pd.Series(years.astype(float))
+        yf = years.astype(float)
+        yf[last] = np.nan
+        yield "float-years-with-nan", pd.Series(yf)
+        yield "float-years-fractional", pd.Series(years.astype(float) + 0.5)
+        yield "nullable-int-years", pd.Series(years.astype(np.int64), dtype="Int64")
+        yield "int-yyyymmdd", pd.Series((years * 10000 + 101).astype(np.int64))
+        yield "bool", pd.Series(years > 1980)
+        yield "object-python-ints", pd.Series([int(v) for v in years], dtype=object)
+        yield "nanoseconds-as-int", pd.Series(x.astype("datetime64[ns]").astype(np.int64))
+
+
+def override_lossless(col, t):
+    x = col.to_numpy()
+    if t is int:
+        yield "float64-whole", pd.Series(x.astype(float))
+        if (np.abs(x) < 2**31).all():
+            yield "int32", pd.Series(x.astype(np.int32))
+    if t is bool:
+        yield "int-01", pd.Series(x.astype(np.int64))
+        yield "float-01", pd.Series(x.astype(float))
+    if t is float:
+        if (x.astype(np.float32).astype(float) == x).all():
+            yield "float32", pd.Series(x.astype(np.float32))
+        if np.isfinite(x).all() and (x == np.floor(x)).all() and (np.abs(x) < 2**31).all():
+            yield "int64-whole", pd.Series(x.astype(np.int64))
+    if t is np.datetime64:
+        for unit in ("ns", "s", "D"):
+            yield f"datetime64[{unit}]", pd.Series(x.astype(f"datetime64[{unit}]"))
+
+
+def task_override(arg):
+    """Faults and lossless variants in columns that OVERRIDE a rule (typed by the rule's return annotation, not by the input table)."""
+    pop, k, nk = arg
+    out = Partial()
+    df = base_frame(pop)
+    p, f = harness.env(DATE)
+    nodes = sim.all_nodes(DATE, tuple(df.columns))
+    dag = sim.dag_for(DATE, tuple(df.columns))
+    with warnings.catch_warnings():
+        warnings.simplefilter("ignore")
+        full = compute_taxes_and_transfers(df, p, f, targets=nodes)
+    rules = [n for n in nodes if n in f and n not in df.columns and _declared(f[n]) is not None and n in dag]
+    for idx, n in enumerate(rules):
+        if idx % nk != k:
+            continue
+        t = _declared(f[n])
+        succ = [s_ for s_ in dag.successors(n) if s_ in nodes][:3]
+        if not succ:
+            continue
+        d2 = df.copy()
+        d2[n] = full[n].to_numpy()
+        try:
+            with warnings.catch_warnings():
+                warnings.simplefilter("ignore")
+                ref_ = compute_taxes_and_transfers(d2, p, f, targets=succ)
+        except Exception as e:  # noqa: BLE001
+            out.count("override_reference_runs_raising")
+            out.setadd("override_reference_errors", f"{n}:{type(e).__name__}")
+            continue
+        for fid, bad in override_faults(full[n], t):
+            case = {"population": pop, "overriding_column": n, "declared": t.__name__, "override_fault": fid}
+            out.state((pop, n, fid))
+            out.step()
+            d3 = df.copy()
+            d3[n] = bad.to_numpy() if bad.dtype != object and str(bad.dtype) != "Int64" else bad.values
+            try:
+                with warnings.catch_warnings():
+                    warnings.simplefilter("ignore")
+                    r = compute_taxes_and_transfers(d3, p, f, targets=succ)
+                out.violation(f"fault-accepted:overriding-{t.__name__}-column:{fid.split('@')[0]}", case,
+                              f"{n} (declared {t.__name__}) supplied as {fid} ({str(bad.dtype)}: {bad.tolist()[:3]}...) was simulated without complaint: {r.shape}")
+                out.outcome("simulated")
+            except Exception as e:  # noqa: BLE001
+                out.outcome(type(e).__name__)
+        for vid, good in override_lossless(full[n], t):
+            case = {"population": pop, "overriding_column": n, "declared": t.__name__, "override_dtype": vid}
+            out.state((pop, n, vid))
+            out.step()
+            d3 = df.copy()
+            d3[n] = good.to_numpy()
+            try:
+                with warnings.catch_warnings(record=True) as w:
+                    warnings.simplefilter("always")
+                    r = compute_taxes_and_transfers(d3, p, f, targets=succ)
+            except Exception as e:  # noqa: BLE001
+                out.violation(f"lossless-variant-rejected:overriding-{t.__name__}-column:{vid}", case, f"{n} as {vid}: {e!r}"[:300])
+                continue
+            keys = df["p_id"].tolist()
+            diffs = sim.compare_results(ref_, r, keys, keys, ulps=0, check_dtype=True)
+            if diffs:
+                out.violation(f"lossless-variant-changes-results:overriding-{t.__name__}-column:{vid}", {**case, "diffs": diffs[:3]}, f"{n} as {vid}: {diffs[:3]}")
+            kind_same = {float: "f", int: "iu", bool: "b", np.datetime64: "M"}[t]
+            if good.dtype.kind not in kind_same and not any(f" - {n} from" in str(m.message) for m in w):
+                out.violation(f"conversion-not-announced:overriding-{t.__name__}-column:{vid}", case, f"{n} as {vid}")
+    return out.dump()
+
 
 def replay(case):
+    if "overriding_column" in case:
+        df = base_frame(case["population"])
+        p, f = harness.env(DATE)
+        nodes = sim.all_nodes(DATE, tuple(df.columns))
+        rules = [n for n in nodes if n in f and n not in df.columns and _declared(f[n]) is not None]
+        part = None
+        for nk in (len(rules),):
+            part = task_override((case["population"], rules.index(case["overriding_column"]), nk))
+        key = case.get("override_fault") or case.get("override_dtype")
+        v = [x for x in part["violations"] if (x[1].get("override_fault") or x[1].get("override_dtype")) == key]
+        return not v, "; ".join(x[2] for x in v[:2])
     pop = case["population"]
     df = base_frame(pop)
     roots = roots_for(df, DATE)
@@ -322,6 +468,8 @@ def run(tier):
     for part in harness.pmap(task_pairs, [(pop, k, 16) for pop in pops for k in range(16)]):
         rep.merge(part)
     for part in harness.pmap(task_lossless, [(pop, k, 16) for pop in pops for k in range(16)]):
+        rep.merge(part)
+    for part in harness.pmap(task_override, [(pop, k, 32) for pop in (pops if thorough else pops[:1]) for k in range(32)]):
         rep.merge(part)
     rep.bound = {"populations": {k: POPS[k] for k in pops}, "date": DATE, "fault_pairs": "first position of every fault class, all unordered pairs"}
     rep.assumptions = ["a fault counts as rejected if compute_taxes_and_transfers raises any exception before returning a result",
